@@ -7,6 +7,7 @@ import (
 	"fmt"
 	"math/rand"
 	"os"
+	"reflect"
 	"strings"
 
 	"github.com/openconfig/ygot/internal/verifharness/reg"
@@ -178,6 +179,13 @@ func jsonrtStream(rng *rand.Rand, n int, tier string, out string) (*Summary, err
 			if err != nil {
 				sum.finding(Finding{Signature: "render-error", What: "ConstructIETFJSON fails on a schema-conforming tree: " + err.Error(), Input: map[string]interface{}{"pkg": name, "tree": tt}})
 				continue
+			}
+			// ---- C19 oracle: RFC 7951 lexical forms and member-name prefixes
+			if doc, derr := decodeJSON(jb); derr == nil {
+				sum.OracleRuns++
+				c19Walk(p, reflect.ValueOf(t), doc, "", cfg, "", func(sig, what string) {
+					sum.finding(Finding{Signature: sig, What: "RFC 7951 encoding violated: " + what, Input: map[string]interface{}{"pkg": name, "json": string(jb), "cfg": cfg.term()}})
+				})
 			}
 			// unmarshal into an empty root
 			root2 := p.NewRoot()
